@@ -357,6 +357,25 @@ Record gl_model (F : Type) : Type := mk_gl_model { gm_arguments : gl_args F }.
 Arguments mk_gl_model {F} _.
 Arguments gm_arguments {F} _.
 
+(* a[rows, :] with a list of row indices (negative indices wrap, IndexError outside): the selected rows in list order *)
+Definition np_take_rows {F : Type} (a : arr2 F) (rows : list Z) : res (arr2 F) :=
+  sel <- mapM (py_getitem (a_cells a)) rows ;;
+  Ret (mk_arr2 (py_len rows) (a_cols a) sel).
+
+(* the fields of ClusterParameters that update_cluster_member_data_statistics reads and writes; field stores on a local
+   copy are functional updates *)
+Record st_cluster (F M : Type) : Type := mk_st_cluster {
+  sc_size : Z; sc_member_points : list Z; sc_empirical_covariance : M; sc_stacked_data_mean : list F }.
+Arguments mk_st_cluster {F M} _ _ _ _.
+Arguments sc_size {F M} _.
+Arguments sc_member_points {F M} _.
+Arguments sc_empirical_covariance {F M} _.
+Arguments sc_stacked_data_mean {F M} _.
+Definition set_sc_empirical_covariance {F M : Type} (c : st_cluster F M) (v : M) : st_cluster F M :=
+  mk_st_cluster (sc_size c) (sc_member_points c) v (sc_stacked_data_mean c).
+Definition set_sc_stacked_data_mean {F M : Type} (c : st_cluster F M) (v : list F) : st_cluster F M :=
+  mk_st_cluster (sc_size c) (sc_member_points c) (sc_empirical_covariance c) v.
+
 (* ---- facts used by every equivalence proof ---- *)
 Lemma bind_ret {A B : Type} (a : A) (f : A -> res B) : bind (Ret a) f = f a.
 Proof. reflexivity. Qed.
